@@ -152,10 +152,40 @@ Qed.
 Lemma begin_unlock_refused : forall cfg st id sender, linv cfg st -> s_synths st id <> [] ->
   exists e, step cfg st (OBeginUnlock sender id) = Err e.
 Proof.
-  intros cfg st id sender I H. cbn [step].
+  intros cfg st id sender I H. cbn [step]. unfold begin_unlock.
   destruct (s_locks st id) as [l|]; [|eexists; reflexivity].
   destruct (negb (l_owner l =? sender)); [eexists; reflexivity|].
   destruct (s_synths st id); [contradiction|]. cbn. eexists; reflexivity.
+Qed.
+
+(* the same for every other way of starting to unlock: part of a lock, all locks of an owner, force unlock *)
+Lemma begin_unlock_partial_refused : forall cfg st id sender amt, s_synths st id <> [] ->
+  exists e, step cfg st (OBeginUnlockPartial sender id amt) = Err e.
+Proof.
+  intros cfg st id sender amt H. cbn [step]. unfold begin_unlock.
+  destruct (s_locks st id) as [l|]; [|eexists; reflexivity].
+  destruct (negb (l_owner l =? sender)); [eexists; reflexivity|]. destruct (amt <=? 0); [eexists; reflexivity|].
+  destruct (s_synths st id); [contradiction|]. cbn. eexists; reflexivity.
+Qed.
+
+Lemma begin_unlock_all_refused : forall cfg st id l, linv cfg st -> s_locks st id = Some l -> s_synths st id <> [] -> l_end l = 0 ->
+  exists e, step cfg st (OBeginUnlockAll (l_owner l)) = Err e.
+Proof.
+  intros cfg st id l I Hl Hs He. cbn [step]. unfold bind.
+  destruct (begin_unlock_all_refuses (l_owner l) (ids_upto (s_last st)) st id l) as [e E]; try assumption; try reflexivity.
+  - apply ids_upto_In. apply (L_lock_rng _ _ I _ _ Hl).
+  - rewrite E. eexists; reflexivity.
+Qed.
+
+Lemma force_unlock_refused : forall cfg st id sender, linv cfg st -> s_synths st id <> [] ->
+  exists e, step cfg st (OForceUnlock sender id) = Err e.
+Proof.
+  intros cfg st id sender I Hs. cbn [step]. unfold bind, force_unlock.
+  destruct (s_locks st id) as [l|]; [|eexists; reflexivity].
+  destruct (negb (l_owner l =? sender)); [eexists; reflexivity|].
+  destruct (negb (existsb (Z.eqb sender) (c_force cfg))); [eexists; reflexivity|].
+  unfold bind. destruct (synth_by_lock_spec cfg st id _ I eq_refl) as [[Hs' _]|[y [_ Er]]]; [contradiction|].
+  rewrite Er. eexists; reflexivity.
 Qed.
 
 Lemma begin_unlock_refused_delegated : forall cfg st id k sender, linv cfg st -> s_conn st id = Some k ->
